@@ -402,6 +402,14 @@ impl C16 {
                         if obs.stdout[..n] != canon[..n] || (obs.stdout.len() > canon.len() && crate::judge::total_events_known(&r)) {
                             return fail("wrong-output", format!("stdout of the limited run is not a prefix of the canonical output [backend {:?}, -i{}, -O{}, --limit {budget}]", backend, m.bits, m.level));
                         }
+                        // ... all of it when the budget is beyond anything the program can use (the canonical run
+                        // halted within 400 000 steps, a budget unit is never worth less than a step) ...
+                        if budget >= 1usize << 32 && r.fate == Fate::Halt {
+                            stats.class("run:limited-by-a-budget-above-2^32");
+                            if obs.stdout != canon {
+                                return fail("wrong-output", format!("--limit {budget} cut the run short: {} of {} canonical output bytes [backend {:?}, -i{}, -O{}]", obs.stdout.len(), canon.len(), backend, m.bits, m.level));
+                            }
+                        }
                         // ... and exactly what the selected library back end does with that budget
                         if let Some(lib) = library_limited_output(&m.code, &c.stdin, &m, *backend, budget) {
                             if lib != obs.stdout {
@@ -506,7 +514,7 @@ impl Property for C16 {
         "C16"
     }
     fn rule(&self) -> String {
-        "argument vectors built from a model: 1..4 code chunks (bare arguments, or -f / --file temp files which may also hold comments; 3 % of the files are a little over 64 KiB with multi-byte comment characters around byte offset 65536), interleaved in random order with documented flags only (-O0..-O5, -i8..-i64, --inplace/--ir-int/--bc-int/--base-jit, --limit N incl. invalid N, --static, the four print options, -h), repeated flags (last wins); stdin is a regular temp file (70 %) or a pipe fed in 2..7 separate writes with pauses (30 %); error cases: unbalanced concatenation (a chunk with a stray bracket), a file that does not exist, a file that is not UTF-8. The real binary (built from /repo's working tree) is run as a process. Oracle = model of the documented argument processing + reference interpreter + the library: stdout equals the canonical output of the concatenated code at the selected width (prefix under --limit, and byte-identical to what the selected library back end prints with that budget, which reveals back-end family/level where budgets differ); print options print exactly the library's rendering for the selected (width, level) - which reveals width and level - and leave the stdin offset at 0; exit 0; errors give exit 1, empty stdout and a non-empty diagnostic on stderr (its wording is not checked); on a sample the run is repeated under strace and the anonymous PROT_EXEC mapping must be present exactly when the base JIT (also: the default) is selected. Non-trivial: at least two chunks of which one from a file, a non-default width/back end/level, and (for runs) input consumed; distinct = distinct (argv model, stdin)".into()
+        "argument vectors built from a model: 1..4 code chunks (bare arguments, or -f / --file temp files which may also hold comments; 3 % of the files are a little over 64 KiB with multi-byte comment characters around byte offset 65536), interleaved in random order with documented flags only (-O0..-O5, -i8..-i64, --inplace/--ir-int/--bc-int/--base-jit, --limit N incl. invalid N, --static, the four print options, -h), repeated flags (last wins); stdin is a regular temp file (70 %) or a pipe fed in 2..7 separate writes with pauses (30 %); error cases: unbalanced concatenation (a chunk with a stray bracket), a file that does not exist, a file that is not UTF-8. The real binary (built from /repo's working tree) is run as a process. Oracle = model of the documented argument processing + reference interpreter + the library: stdout equals the canonical output of the concatenated code at the selected width (prefix under --limit - the whole output when the limit is 2^32 or more, values m * 2^k + d with k = 32..39 included -, and byte-identical to what the selected library back end prints with that budget, which reveals back-end family/level where budgets differ); print options print exactly the library's rendering for the selected (width, level) - which reveals width and level - and leave the stdin offset at 0; exit 0; errors give exit 1, empty stdout and a non-empty diagnostic on stderr (its wording is not checked); on a sample the run is repeated under strace and the anonymous PROT_EXEC mapping must be present exactly when the base JIT (also: the default) is selected. Non-trivial: at least two chunks of which one from a file, a non-default width/back end/level, and (for runs) input consumed; distinct = distinct (argv model, stdin)".into()
     }
     fn assumptions(&self) -> Vec<String> {
         vec![
@@ -542,7 +550,7 @@ impl Property for C16 {
             6 => prop_oneof![Just("-i8"), Just("-i16"), Just("-i32"), Just("-i64")].prop_map(|s| Arg::Flag(s.into())),
             8 => prop_oneof![Just("--inplace"), Just("--ir-int"), Just("--bc-int"), Just("--base-jit")].prop_map(|s| Arg::Flag(s.into())),
             3 => prop_oneof![Just("--print-ir"), Just("--print-bc"), Just("--print-jit-bc"), Just("--print-jit-mc")].prop_map(|s| Arg::Flag(s.into())),
-            3 => prop_oneof![4 => (0usize..60).prop_map(|n| n.to_string()), 2 => (0usize..100_000).prop_map(|n| n.to_string()), 1 => Just("4611686018427387904".to_string()), 1 => Just("x1".to_string()), 1 => Just("-3".to_string())].prop_map(Arg::Limit),
+            3 => prop_oneof![4 => (0usize..60).prop_map(|n| n.to_string()), 2 => (0usize..100_000).prop_map(|n| n.to_string()), 1 => Just("4611686018427387904".to_string()), 2 => (0usize..6, 1u64..5, 32u32..40).prop_map(|(d, m, k)| ((m << k) + d as u64).to_string()), 1 => Just("x1".to_string()), 1 => Just("-3".to_string())].prop_map(Arg::Limit),
             1 => Just(Arg::Flag("--static".into())),
         ];
         let special = prop_oneof![20 => Just(None), 1 => Just(Some(Arg::Flag("-h".into()))), 1 => Just(Some(Arg::Flag("--help".into()))), 2 => Just(Some(Arg::MissingFile)), 1 => Just(Some(Arg::BadUtf8File)), 3 => stray.prop_map(Some)];
